@@ -1189,6 +1189,17 @@ def _const_truth(t):
           t.comparators[0], ast.Constant) and t.comparators[0].value is None:
     r = t.left.value is None
     return r if isinstance(t.ops[0], ast.Is) else (not r)
+  # 'vararg' in ('vararg', 'kwarg') / == between constants
+  if isinstance(t, ast.Compare) and len(t.ops) == 1 and isinstance(t.left, ast.Constant):
+    c = t.comparators[0]
+    if isinstance(t.ops[0], (ast.In, ast.NotIn)) and isinstance(
+        c, (ast.Tuple, ast.List, ast.Set)) and all(isinstance(e, ast.Constant) for e in c.elts):
+      r = any(type(e.value) is type(t.left.value) and e.value == t.left.value for e in c.elts)
+      return r if isinstance(t.ops[0], ast.In) else (not r)
+    if isinstance(t.ops[0], (ast.Eq, ast.NotEq)) and isinstance(c, ast.Constant) and \
+        type(c.value) is type(t.left.value):
+      r = c.value == t.left.value
+      return r if isinstance(t.ops[0], ast.Eq) else (not r)
   return None
 
 
@@ -1761,11 +1772,26 @@ class _Idioms(ast.NodeTransformer):
         ast.fix_missing_locations(st)
         r = self.visit(st)
         res.extend(r if isinstance(r, list) else [r])
-      return res
+      # tests on the loop variable are constant now
+      return _fold_constant_ifs(res) or [ast.copy_location(ast.Pass(), n)]
     self.generic_visit(n)
     return n
 
   def visit_Assign(self, n):
+    # local = obj.attr = V   ==   obj.attr = V; local = obj.attr   (a plain
+    # attribute chain of a name: the local is an alias of what was stored)
+    if len(n.targets) == 2:
+      nm = [t for t in n.targets if isinstance(t, ast.Name)]
+      ch = [t for t in n.targets if isinstance(t, ast.Attribute) and _simple(t)]
+      if len(nm) == 1 and len(ch) == 1:
+        first = ast.copy_location(ast.Assign(targets=[ch[0]], value=n.value), n)
+        load = copy.deepcopy(ch[0])
+        load.ctx = ast.Load()
+        second = ast.copy_location(ast.Assign(targets=[nm[0]], value=load), n)
+        ast.fix_missing_locations(first)
+        ast.fix_missing_locations(second)
+        r = self.visit_Assign(first)
+        return (r if isinstance(r, list) else [r]) + [second]
     # X = functools.reduce(operator.or_, (E for v in IT), INIT)
     #   ==  X = INIT; for v in IT: X |= E      (| on values without __ior__, or
     #       on a fresh INIT set: the same result either way)
